@@ -182,7 +182,7 @@ func c05Run(t *testing.T, cj []byte, res *vfResult) {
 		unfinished = s.Unfinished()
 		trace = append(trace, s.Trace...)
 		preempts = s.Preempts
-		s.Stop()
+		s.StopIf(outcome == "done")
 	})
 	_ = leftover
 	res.Steps = len(trace)
